@@ -19,7 +19,7 @@ EXPLANATION = (
     "is statement-scoped: every PrintState field a per-item operation modifies is written again by "
     "reset() or print_end(); (R6) the implicit numeric conversions test the range of the rounded value "
     "they convert, so no value that rounds into range ends the program with a spurious Overflow "
-    "(shared with C06.R7); (R7) a variable or array element that was never assigned starts as the zero / empty value of its declared type (shared with C04.R4).")
+    "(shared with C06.R7); (R7) a variable or array element that was never assigned starts as the zero / empty value of its declared type (shared with C04.R4); (R8) the values a READ / INPUT / call hands back are written to the arguments left to right (shared with C03.R3).")
 NOT_DECIDED = ["agreement of printed output with the reference semantics for every program and value"]
 
 # operator name -> Ordering values for which the comparison holds
@@ -363,3 +363,6 @@ def run(ctx):
     # a variable that was never assigned prints and computes as the zero of its declared type
     from . import c04
     c04.r4_allocation(ctx, "C01.R7")
+    # READ v1, v2 / INPUT v1, v2 assign left to right: the values are written back in argument order
+    from . import c03
+    c03.r3_fifo(ctx, "C01.R8")
